@@ -781,7 +781,11 @@ def run_case(case):
         cb = gtirb_rewriting.RewritingContext(wb.m, [])
         for a, b in case["rt"]:
             cb.retarget_symbol_uses(wb.sym[a], wb.sym[b])
-        cb.apply()
+        try:
+            cb.apply()
+        except NotImplementedError:
+            # the library does not retarget SymAddrAddr expressions (shared data expressions): no baseline, not a C19 matter
+            return [], "skipped:retarget-not-implemented", False
         before = snapshot(wb.ir, wb.m, wb.names)
         rt_first = case.get("rt_first", 1)
         if rt_first:
